@@ -77,3 +77,186 @@ pub fn twin() {
     vcheck!(false, "twin:reachable");
     std::mem::forget((a, b, ab));
 }
+
+// ---------------------------------------------------------------------------------------------
+// other CRDT kinds: values are built through the public operations with symbolic parameters
+// ---------------------------------------------------------------------------------------------
+use redis_sim::replication::lattice::{GCounter, GSet, ORSet, PNCounter, VectorClock};
+
+fn any_gcounter() -> GCounter {
+    let mut g = GCounter::new();
+    let (p0, p1) = (vs::bool(), vs::bool());
+    let (a0, a1) = (vs::u32(), vs::u32());
+    if p0 { g.increment_by(ReplicaId(0), a0 as u64); }
+    if p1 { g.increment_by(ReplicaId(1), a1 as u64); }
+    g
+}
+fn g_obs_eq(x: &GCounter, y: &GCounter) -> bool {
+    x.value() == y.value() && x.get_replica_count(&ReplicaId(0)) == y.get_replica_count(&ReplicaId(0))
+        && x.get_replica_count(&ReplicaId(1)) == y.get_replica_count(&ReplicaId(1)) && x.is_empty() == y.is_empty()
+}
+/// law: 0 commutative, 1 idempotent, 2 associative
+pub fn gcounter_law(law: u8) {
+    let (a, b) = (any_gcounter(), any_gcounter());
+    match law {
+        0 => { let (x, y) = (a.merge(&b), b.merge(&a)); vcheck!(g_obs_eq(&x, &y), "gcounter:comm"); vcheck!((x == y), "gcounter:comm (==)"); std::mem::forget((x, y)); }
+        1 => { let x = a.merge(&a); vcheck!(g_obs_eq(&x, &a), "gcounter:idem"); std::mem::forget(x); }
+        _ => { let c = any_gcounter(); let (x, y) = (a.merge(&b).merge(&c), a.merge(&b.merge(&c))); vcheck!(g_obs_eq(&x, &y), "gcounter:assoc"); std::mem::forget((x, y, c)); }
+    }
+    std::mem::forget((a, b));
+}
+
+fn any_pncounter() -> PNCounter {
+    let mut p = PNCounter::new();
+    let (p0, p1, n0) = (vs::bool(), vs::bool(), vs::bool());
+    let (a0, a1, d0) = (vs::u32(), vs::u32(), vs::u32());
+    if p0 { p.increment_by(ReplicaId(0), a0 as u64); }
+    if p1 { p.increment_by(ReplicaId(1), a1 as u64); }
+    if n0 { p.decrement_by(ReplicaId(0), d0 as u64); }
+    p
+}
+pub fn pncounter_law(law: u8) {
+    let (a, b) = (any_pncounter(), any_pncounter());
+    match law {
+        0 => { let (x, y) = (a.merge(&b), b.merge(&a)); vcheck!(x.value() == y.value() && x.is_empty() == y.is_empty(), "pncounter:comm"); vcheck!(x == y, "pncounter:comm (==)"); std::mem::forget((x, y)); }
+        1 => { let x = a.merge(&a); vcheck!(x.value() == a.value() && x == a, "pncounter:idem"); std::mem::forget(x); }
+        _ => { let c = any_pncounter(); let (x, y) = (a.merge(&b).merge(&c), a.merge(&b.merge(&c))); vcheck!(x.value() == y.value() && x == y, "pncounter:assoc"); std::mem::forget((x, y, c)); }
+    }
+    std::mem::forget((a, b));
+}
+
+fn any_gset() -> GSet<String> {
+    let mut s = GSet::new();
+    if vs::bool() { s.add("a".to_string()); }
+    if vs::bool() { s.add("b".to_string()); }
+    s
+}
+fn gs_obs_eq(x: &GSet<String>, y: &GSet<String>) -> bool {
+    x.len() == y.len() && x.contains(&"a".to_string()) == y.contains(&"a".to_string()) && x.contains(&"b".to_string()) == y.contains(&"b".to_string())
+}
+pub fn gset_law(law: u8) {
+    let (a, b) = (any_gset(), any_gset());
+    match law {
+        0 => { let (x, y) = (a.merge(&b), b.merge(&a)); vcheck!(gs_obs_eq(&x, &y), "gset:comm"); std::mem::forget((x, y)); }
+        1 => { let x = a.merge(&a); vcheck!(gs_obs_eq(&x, &a), "gset:idem"); std::mem::forget(x); }
+        _ => { let c = any_gset(); let (x, y) = (a.merge(&b).merge(&c), a.merge(&b.merge(&c))); vcheck!(gs_obs_eq(&x, &y), "gset:assoc"); std::mem::forget((x, y, c)); }
+    }
+    std::mem::forget((a, b));
+}
+
+/// OR-set built by one replica's operations on element "a": optional add, optional remove, optional re-add
+fn any_orset(r: u64) -> ORSet<String> {
+    let mut s = ORSet::new();
+    if vs::bool() { s.add("a".to_string(), ReplicaId(r)); }
+    if vs::bool() { let t = s.remove(&"a".to_string()); std::mem::forget(t); }
+    if vs::bool() { s.add("a".to_string(), ReplicaId(r)); }
+    s
+}
+fn or_obs_eq(x: &ORSet<String>, y: &ORSet<String>) -> bool {
+    x.contains(&"a".to_string()) == y.contains(&"a".to_string()) && x.len() == y.len()
+        && x.get_tags(&"a".to_string()).map(|t| t.len()) == y.get_tags(&"a".to_string()).map(|t| t.len())
+}
+pub fn orset_law(law: u8) {
+    let (a, b) = (any_orset(0), any_orset(1));
+    match law {
+        0 => { let (x, y) = (a.merge(&b), b.merge(&a)); vcheck!(or_obs_eq(&x, &y), "orset:comm"); vcheck!(x == y, "orset:comm (==)"); std::mem::forget((x, y)); }
+        1 => { let x = a.merge(&a); vcheck!(or_obs_eq(&x, &a), "orset:idem"); std::mem::forget(x); }
+        _ => { let c = any_orset(2); let (x, y) = (a.merge(&b).merge(&c), a.merge(&b.merge(&c))); vcheck!(or_obs_eq(&x, &y), "orset:assoc"); std::mem::forget((x, y, c)); }
+    }
+    std::mem::forget((a, b));
+}
+
+fn any_vclock() -> VectorClock {
+    let mut v = VectorClock::new();
+    let (n0, n1) = (vs::u8(), vs::u8());
+    vs::assume(n0 <= 2 && n1 <= 2);
+    let mut i = 0; while i < n0 { v.increment(ReplicaId(0)); i += 1; }
+    let mut j = 0; while j < n1 { v.increment(ReplicaId(1)); j += 1; }
+    v
+}
+pub fn vclock_law(law: u8) {
+    let (a, b) = (any_vclock(), any_vclock());
+    let eqv = |x: &VectorClock, y: &VectorClock| x.get(&ReplicaId(0)) == y.get(&ReplicaId(0)) && x.get(&ReplicaId(1)) == y.get(&ReplicaId(1));
+    match law {
+        0 => { let (x, y) = (a.merge(&b), b.merge(&a)); vcheck!(eqv(&x, &y) && x == y, "vclock:comm"); std::mem::forget((x, y)); }
+        1 => { let x = a.merge(&a); vcheck!(eqv(&x, &a), "vclock:idem"); std::mem::forget(x); }
+        _ => { let c = any_vclock(); let (x, y) = (a.merge(&b).merge(&c), a.merge(&b.merge(&c))); vcheck!(eqv(&x, &y), "vclock:assoc"); std::mem::forget((x, y, c)); }
+    }
+    std::mem::forget((a, b));
+}
+
+/// hash-kind replicated value over fields ⊆ {f, g}; every field is a symbolic register (stamp <= outer stamp)
+fn any_rv_hash(with_g: bool) -> ReplicatedValue {
+    let ts = any_clock();
+    let mut h = crate::coll::HashMap::new();
+    if vs::bool() { let l = any_lww(); vs::assume(l.timestamp <= ts); h.insert("f".to_string(), l); }
+    if with_g && vs::bool() { let l = any_lww(); vs::assume(l.timestamp <= ts); h.insert("g".to_string(), l); }
+    ReplicatedValue { crdt: CrdtValue::Hash(h), vector_clock: None, expiry_ms: any_opt_u64(), timestamp: ts, replication_factor: None }
+}
+fn field<'a>(v: &'a ReplicatedValue, f: &str) -> Option<&'a LwwRegister<SDS>> { v.get_hash().and_then(|h| h.get(f)) }
+fn fields_same(a: &ReplicatedValue, b: &ReplicatedValue, f: &str) -> bool {
+    match (field(a, f), field(b, f)) { (Some(x), Some(y)) => lww_obs_eq(x, y), (None, None) => true, _ => false }
+}
+fn assume_unique_field_stamps(a: &ReplicatedValue, b: &ReplicatedValue, f: &str) {
+    if let (Some(x), Some(y)) = (field(a, f), field(b, f)) { vs::assume(x.timestamp != y.timestamp || lww_same(x, y)); }
+}
+fn hash_obs_checks(x: &ReplicatedValue, y: &ReplicatedValue) -> (bool, bool, bool) {
+    (x.is_hash() == y.is_hash() && fields_same(x, y, "f") && fields_same(x, y, "g"),
+     x.expiry_ms == y.expiry_ms,
+     x.timestamp == y.timestamp)
+}
+pub fn hash_law(law: u8, with_g: bool) {
+    let (a, b) = (any_rv_hash(with_g), any_rv_hash(with_g));
+    assume_unique_field_stamps(&a, &b, "f");
+    assume_unique_field_stamps(&a, &b, "g");
+    match law {
+        0 => {
+            let (x, y) = (a.merge(&b), b.merge(&a));
+            let (f, e, t) = hash_obs_checks(&x, &y);
+            vcheck!(f, "hash:comm:fields"); vcheck!(e, "hash:comm:expiry"); vcheck!(t, "hash:comm:stamp");
+            std::mem::forget((x, y));
+        }
+        1 => {
+            let x = a.merge(&a);
+            let (f, e, t) = hash_obs_checks(&x, &a);
+            vcheck!(f && e && t, "hash:idem");
+            std::mem::forget(x);
+        }
+        _ => {
+            let c = any_rv_hash(with_g);
+            assume_unique_field_stamps(&a, &c, "f"); assume_unique_field_stamps(&b, &c, "f");
+            assume_unique_field_stamps(&a, &c, "g"); assume_unique_field_stamps(&b, &c, "g");
+            let (x, y) = (a.merge(&b).merge(&c), a.merge(&b.merge(&c)));
+            let (f, e, t) = hash_obs_checks(&x, &y);
+            vcheck!(f, "hash:assoc:fields"); vcheck!(e, "hash:assoc:expiry"); vcheck!(t, "hash:assoc:stamp");
+            std::mem::forget((x, y, c));
+        }
+    }
+    std::mem::forget((a, b));
+}
+
+/// type mismatch (one side LWW, the other a hash {f}): commutative / associative in kind and content
+pub fn mixed_comm() {
+    let a = any_rv_lww();
+    let b = any_rv_hash(false);
+    vs::assume(a.timestamp != b.timestamp);
+    let (x, y) = (a.merge(&b), b.merge(&a));
+    vcheck!(x.is_hash() == y.is_hash(), "mixed:comm:surviving type");
+    vcheck!(opt_sds_eq(x.get(), y.get()) && x.is_tombstone() == y.is_tombstone() && fields_same(&x, &y, "f"), "mixed:comm:content");
+    vcheck!(x.timestamp == y.timestamp && x.expiry_ms == y.expiry_ms, "mixed:comm:stamp/expiry");
+    std::mem::forget((a, b, x, y));
+}
+/// (Hash, Lww, Hash) with concrete payloads, symbolic stamps: grouping must not matter
+pub fn mixed_assoc_hlh() {
+    let mk_h = |v: u8, ts: LamportClock| { let mut h = crate::coll::HashMap::new(); h.insert("f".to_string(), LwwRegister { value: Some(sds1(v)), timestamp: ts, tombstone: false }); ReplicatedValue { crdt: CrdtValue::Hash(h), vector_clock: None, expiry_ms: None, timestamp: ts, replication_factor: None } };
+    let (ta, tb, tc) = (any_clock(), any_clock(), any_clock());
+    vs::assume(ta != tb && tb != tc && ta != tc);
+    let a = mk_h(1, ta);
+    let b = ReplicatedValue { crdt: CrdtValue::Lww(LwwRegister { value: Some(sds1(2)), timestamp: tb, tombstone: false }), vector_clock: None, expiry_ms: None, timestamp: tb, replication_factor: None };
+    let c = mk_h(3, tc);
+    let (x, y) = (a.merge(&b).merge(&c), a.merge(&b.merge(&c)));
+    vcheck!(x.is_hash() == y.is_hash(), "mixed:assoc:surviving type");
+    vcheck!(opt_sds_eq(x.get(), y.get()) && fields_same(&x, &y, "f"), "mixed:assoc:content depends on grouping");
+    vcheck!(x.timestamp == y.timestamp, "mixed:assoc:stamp");
+    std::mem::forget((a, b, c, x, y));
+}
